@@ -50,7 +50,7 @@ def context_variant() -> dict:
 
 def context_cfg(kind: str, *, threads=2, progs="{1, 2, 3, 4}", warmth='{"cold", "warm"}', view="View") -> str:
     pol = _consts(context_variant())
-    base = f"CONSTANTS\n  Classes <- MCClasses\n  QNs <- MCQNs\n{pol}\n"
+    base = f"CONSTANTS\n  Classes <- MCClasses\n  QNs <- MCQNs\n  Vars <- MCVars\n  MemoPolicy = \"qname\"\n{pol}\n"
     if kind == "trace":
         return "SPECIFICATION TSpecR\n" + base + "CONSTRAINT Progress\nPOSTCONDITION Accepted\nCHECK_DEADLOCK FALSE\n"
     head = "SPECIFICATION Spec\n" + base + f"  NThreads = {threads}\n  ProgIds = {progs}\n  Warmth = {warmth}\nVIEW {view}\n"
